@@ -51,14 +51,15 @@ Section Objective.
   Inductive wc_bracket : Type :=
   | WB_pair (e0 e1 : entry) (iter : nat)     (* bracket[0], bracket[1] set; value of iter at the break *)
   | WB_single (e0 : entry) (iter : nat)      (* strong Wolfe point found while bracketing: only bracket[0] is set *)
-  | WB_exhausted.                            (* maxIter expansions: bracket, bracketf, bracketg were never assigned *)
+  | WB_exhausted (last : entry).             (* maxIter expansions passed all three tests: [last] = (t_prev, f_prev, g_prev),
+                                                the last TESTED point (the 26th evaluation is never tested) *)
 
   (* while(iter++ < maxIter): [k] is the value of iter inside the body (1, 2, ...), [prev] = (t_prev, f_prev, g_prev),
      [new] = (t, f_new, g_new) *)
   Fixpoint wc_bracketing (fuel k : nat) (ex : nat -> Q -> Q) (point d : vec) (value gtd : Q)
            (prev new : entry) : wc_bracket :=
     match fuel with
-    | O => WB_exhausted
+    | O => WB_exhausted prev
     | S fuel' =>
       let t := e_t new in
       let gtdn := dot (e_g new) d in
@@ -100,11 +101,14 @@ Section Objective.
 
   Definition wc_write (point d : vec) (e : entry) : vec * Q * vec := (ray point d (e_t e), e_f e, e_g e).
 
-  (* None: the C++ reads a variable that was never assigned (undefined behaviour) *)
+  (* None: the C++ reads a variable that was never assigned (undefined behaviour).
+     As coded since the repair 1272c59f: when all maxIter expansions succeed, bracket[0] = bracket[1] = the last tested
+     point, done = single = true; iter is maxIter + 1 then, so the point is written exactly when value > f_prev. *)
   Definition wolfecubic (o : ls_oracle) (point d : vec) (value : Q) (g : vec) (t0 : Q) : option (vec * Q * vec) :=
     let gtd := dot g d in
     match wc_bracketing wc_max_iter 1 (o_wexp o) point d value gtd (0, value, g) (eval3 point d t0) with
-    | WB_exhausted => None
+    | WB_exhausted e =>
+      if qltb (e_f e) value then Some (wc_write point d e) else Some (point, value, g)
     | WB_single e0 iter =>
       if Nat.ltb iter wc_max_iter || qltb (e_f e0) value then Some (wc_write point d e0)
       else None                                            (* value > bracketf[1] reads the unassigned bracketf[1] *)
@@ -113,6 +117,14 @@ Section Objective.
       if Nat.ltb it wc_max_iter || qltb (e_f b0) value || qltb (e_f b1) value
       then Some (if qltb (e_f b0) (e_f b1) then wc_write point d b0 else wc_write point d b1)
       else Some (point, value, g)
+    end.
+
+  (* wolfecubic BEFORE the repair 1272c59f (not executed by the driver; kept for the regression example): after
+     maxIter successful expansions bracket, bracketf and bracketg were read without ever having been assigned *)
+  Definition old_wolfecubic (o : ls_oracle) (point d : vec) (value : Q) (g : vec) (t0 : Q) : option (vec * Q * vec) :=
+    match wc_bracketing wc_max_iter 1 (o_wexp o) point d value (dot g d) (0, value, g) (eval3 point d t0) with
+    | WB_exhausted _ => None
+    | _ => wolfecubic o point d value g t0
     end.
 
   (* ---------------- dlinmin ---------------- *)
